@@ -2,6 +2,7 @@
 import vt
 vt.use_repo()
 from pynetdicom2 import pdu, userdataitems as udi
+from vt.api import pick
 
 UIDCH = '1.2.840.10008.5.1.4.1.1.2.1234567890.98765.4321.11.22.33.44.55.6'   # 64 chars of [0-9.]
 NAMECH = 'PYNETDICOM_ab-XY9'[:16]                                            # 16 printable chars
@@ -48,6 +49,10 @@ def sub_ok(kind, a, b, r, n, m, nmax=64, mmax=16):
 
 def build_sub(kind, a, b, r, n, m, uid_s=None, name_s=None, data_s=None):
     """Sub-item of `kind`.  uid_s / name_s / data_s override the alphabet slices with symbolic contents."""
+    if uid_s is None and name_s is None:
+        n = pick(n, 0, 64)
+    if data_s is None:
+        m = pick(m, 0, 32)
     u = UIDCH[:n] if uid_s is None else uid_s
     nm = NAMECH[:n] if name_s is None else name_s
     dt = APPCH[:m] if data_s is None else data_s
